@@ -23,7 +23,7 @@
     whose theorems turn them into the model's `nearestFwd` / `shiftFwd`) on the calendar `calR r` of the resource
     object `ref r`; `Resource(name)` constructs the object `ref (resRef name)`, whose calendar is the default one
     (`calRef res0`: the calendars of the table `res0`, `defaultCal` for every other name).
-  * `self` = `passSelf env` (`__default_estimate`, `__balance_resources`).
+  * `self` = `passSelf env` (`__default_estimate`, `__balance_resources`, `__start` = the project start `env.bound`).
 
   Results.
     Stage 1  `Check.*` (end of the file): on 6 concrete environments (a leaf; a summary with two leaves, with and
@@ -100,9 +100,11 @@ def encS (env : Pj.Env) (ms : Uid → Bool) (σ : SS) : PState :=
     res := σ.res.map (fun p => (encKey p.1, resRef p.1))
     reads := σ.reads }
 
-/-- the scheduler object -/
+/-- the scheduler object: `__default_estimate`, `__balance_resources` and - read by the forward pass only, the
+    translator accepts `self.__start` in `ForwardScheduler` only - the project start `__start` = `env.bound` -/
 def passSelf (env : Pj.Env) : PyLite.Env :=
-  [("default_estimate", .atom (.num env.defaultEst)), ("balance_resources", .atom (.bool env.balance))]
+  [("default_estimate", .atom (.num env.defaultEst)), ("balance_resources", .atom (.bool env.balance)),
+   ("start", .atom (.time env.bound))]
 
 /-- the name of the resource object `ref r` -/
 def keyOfRef (r : Nat) : Option Nat := if r = 0 then none else some (r - 1)
@@ -472,6 +474,9 @@ theorem sumLoop_opt' {α : Type} (g : α → Option Rat) (l : List α) (a : Rat)
 theorem passSelf_default (env : Pj.Env) :
     (passSelf env).get? "default_estimate" = some (.atom (.num env.defaultEst)) := rfl
 
+theorem passSelf_start (env : Pj.Env) : (passSelf env).get? "start" = some (.atom (.time env.bound)) := by
+  simp [passSelf, Env.get?]
+
 section
 variable (env : Pj.Env) (ms : Uid → Bool) (wfuel : Nat) (calR : Nat → Cal)
   (rec : List Atom → PState → Res (Val × PState)) (σ : SS) (t : Uid) (mp : Time) (ρ : PyLite.Env)
@@ -612,7 +617,9 @@ theorem iEnd_ok (hw : Extracted.fwdShiftMaxSteps < wfuel)
         passH_call_shift _ _ hw, passH_clock, now, epoch, Except.map, leftOf, addRows]
       rcases shiftFwd _ _ _ _ with e | ⟨e, new⟩
       · simp
-      · pylite_p [setF, hst, optTime, SchedSrc.mkRow, Nat.add_assoc]
+      · by_cases hlt : env.bound < env.clock (σ.reads + 1) <;>
+        pylite_p [setF, hst, optTime, SchedSrc.mkRow, Nat.add_assoc, passSelf_start, hlt, hρ.task, hρ.mp, hρ.res,
+          hρ.leaf, encS] <;>
         tail_env hρ
     | false =>
       rw [hleaf] at hρ
@@ -1323,6 +1330,14 @@ end Check
     `left_hours = max(est - spent, 0)` -> `est - spent`                 iEnd_ok FAILS
     `start = max(_task.start, datetime.now())` -> `_task.start`         iEnd_ok FAILS; Check e1 e2 e3 e4 e5
     `_task.start` dropped from the final `max(shift, now, start)`       iEnd_ok FAILS
+    (re-run after the repair of the end clamp, `_task.end = max(end, now, _task.start) if now > self.__start else
+     max(end, _task.start)`, which the translator renders with `assign "end"`, `assign "now"`, `ite`, `cmp gt`,
+     `field "start"`):
+    `now > self.__start` -> `now >= self.__start`                       iEnd_ok FAILS
+    the unconditional `max(end, now, _task.start)` of before the repair iEnd_ok FAILS
+    the two branches of the conditional swapped                         iEnd_ok FAILS
+    `self.__start` -> `min_date` in the test                            iEnd_ok FAILS
+    `self.__start` read in `__backward_pass`                            MISS (field of the scheduler)
     shift called with `_task.start` instead of `start`                  iEnd_ok FAILS; Check e5
     last block guarded by `_task.start is None`                         iEnd_ok FAILS; Check e1 e2 e3 e4 e5 e6
     nearest called with `max_predecessor_ends` instead of `_task.start` iStart_ok FAILS; Check e5
